@@ -40,9 +40,9 @@ var host64 = strings.Repeat("a", 31) + "." + strings.Repeat("b", 27) + ".test" /
 
 // concrete spellings of the value classes of spec/RewriteValue.tla
 var rvSpellings = map[string][]string{
-	"empty": {""}, "garbage": {"!!", "1.2.3", "zz::1"}, "text": {"hello", "v=spf1 -all"}, "spaces": {"a b  c", " "},
+	"empty": {""}, "garbage": {"!!", "1.2.3", "zz::1"}, "text": {"hello", "v=spf1 -all", "\"", "\"\"", "\"a\"", "a\"", "\"a", "'"}, "spaces": {"a b  c", " "},
 	"v4": {"1.2.3.4", "127.0.0.1"}, "v6": {"::1", "2001:db8::1", "FE80::1"}, "mapped": {"::ffff:1.2.3.4"},
-	"host": {"c1.test", "EXAMPLE.org", "xn--e1afmkfd.test", "a-b.c"}, "hostdot": {"c1.test."}, "badhost": {"-bad.test", "a..b", "a_b.test", "bad-.x/y"},
+	"host": {"c1.test", "EXAMPLE.org", "xn--e1afmkfd.test", "a-b.c"}, "hostdot": {"c1.test."}, "badhost": {"-bad.test", "a..b", "a_b.test", "bad-.x/y", "c1.test..", "new-ptr.example...", ".", ".."},
 	"len63": {host63}, "len64": {host64},
 	"mx_ok": {"10 mx.test", "0 mail.example.org"}, "mx_max": {"65535 mx.test"}, "mx_1field": {"mx.test", "10"},
 	"mx_over": {"65536 mx.test"}, "mx_neg": {"-1 mx.test"}, "mx_nan": {"ten mx.test", "1.5 mx.test"}, "mx_badhost": {"10 -bad", "10 a b", "10 "},
@@ -50,7 +50,7 @@ var rvSpellings = map[string][]string{
 	"srv_5fields": {"1 2 3 srv.test extra"}, "srv_over_prio": {"65536 2 3 srv.test"}, "srv_over_weight": {"1 65536 3 srv.test"},
 	"srv_over_port": {"1 2 65536 srv.test"}, "srv_nan": {"a 2 3 srv.test", "1 b 3 srv.test", "1 2 c srv.test", "1 2 -3 srv.test"},
 	"srv_badhost": {"1 2 3 -bad", "1 2 3 a..b"},
-	"svcb_ok": {"1 svc.test", "65535 s.test"}, "svcb_dot": {"1 .", "0 ."}, "svcb_params": {"1 . alpn=h3", "1 svc.test alpn=h2 port=8443", "1 . dohpath=/dns-query{?dns}"},
+	"svcb_ok":     {"1 svc.test", "65535 s.test"}, "svcb_dot": {"1 .", "0 ."}, "svcb_params": {"1 . alpn=h3", "1 svc.test alpn=h2 port=8443", "1 . dohpath=/dns-query{?dns}"},
 	"svcb_1field": {"1", "svc.test"}, "svcb_nan": {"x svc.test", "-1 svc.test"}, "svcb_over": {"65536 svc.test"},
 	"svcb_badhost": {"1 -bad", "1 a..b"}, "svcb_badparam": {"1 . alpn", "1 svc.test noequals"}, "svcb_3eq": {"1 . a=b=c"},
 }
